@@ -223,8 +223,17 @@ def run(tier):
     ck.assumptions = ["atoms partition the element domain; all driver arguments are atom end points",
                       "hook H2 (verif_repr) reports the representation faithfully"]
     names = ["small3", "u32", "discq", "one"] if tier == "quick" else ["small3", "u32", "discq", "disc", "one", "glyphid", "u16", "small4"]
-    for n in names:
-        part_refine(ck, n, workers=4 if tier == "quick" else 8)
+    if tier == "quick":
+        for n in names:
+            part_refine(ck, n, workers=4)
+    else:
+        # the configurations are independent (own working directories): run them side by side, the replays are
+        # single-threaded and the largest one (small4) takes about 20 minutes on its own
+        from concurrent.futures import ThreadPoolExecutor
+        with ThreadPoolExecutor(max_workers=4) as pool:
+            futs = [pool.submit(part_refine, ck, n, 4) for n in names]
+            for f in futs:
+                f.result()
     part_sbs(ck, tier)
     part_rangeset(ck)
     if tier == "quick":
